@@ -152,15 +152,33 @@ Print Assumptions C17_gq_short_params_refuted.
 
 (* ---------------- lattices ---------------- *)
 
-(* LAT with FILL=n and no --lattice option for the cell *)
-Theorem C17_lattice_no_opt_rejected : forall T (S : Scalar T) (d : deckm (T:=T)) c,
+(* LAT=1|2 ... FILL=n (no ranges, no transformation) in the options of a cell
+   for which no --lattice option is given, with only options the keyword loop
+   steps over (IMP:x=v, U=n, non-keywords) in front, between and behind *)
+Theorem C17_lattice_no_opt_rejected : forall T (S : Scalar T) (d : deckm (T:=T)) c
+    (pre mid post : list (tok (T:=T))) n1 n2 n3 elat vlat z efill u,
+  In c (d_cells d) ->
+  c_toks c = (pre ++ elat :: vlat :: mid ++ efill :: u :: post)%list ->
+  skippable pre n1 -> skippable mid n2 -> skippable post n3 ->
+  prefix "imp" (tsp elat) = false -> contains_sub "fill" (tsp elat) = false ->
+  contains_sub "lat" (tsp elat) = true -> py_int (tsp vlat) = Some z ->
+  ((z =? 1)%Z || (z =? 2)%Z) = true ->
+  prefix "imp" (tsp efill) = false -> contains_sub "fill" (tsp efill) = true ->
+  has_colon u = false -> float_lit (tsp u) = true -> stops post ->
+  (forall lat, parse_lattice (d_latopts d) = Ok lat -> lookup (c_id c) lat = None) ->
+  is_ok (validate S d) = false.
+Proof. exact @run_lattice_no_opt_rejected_syntactic. Qed.
+Print Assumptions C17_lattice_no_opt_rejected.
+
+(* the same for any option list, in terms of what the keyword loop returns *)
+Theorem C17_lattice_no_opt_rejected_general : forall T (S : Scalar T) (d : deckm (T:=T)) c,
   In c (d_cells d) ->
   (forall lat, parse_lattice (d_latopts d) = Ok lat -> lookup (c_id c) lat = None) ->
   (forall trs k, parse_kw S (Datatypes.S (List.length (c_toks c))) trs (c_toks c) kws0 = Ok k ->
      exists fr z, k_fill k = Some fr /\ f_bounds fr = None /\ k_lat k = Some z) ->
   is_ok (validate S d) = false.
 Proof. exact @run_lattice_no_opt_rejected. Qed.
-Print Assumptions C17_lattice_no_opt_rejected.
+Print Assumptions C17_lattice_no_opt_rejected_general.
 
 Theorem C17_to_fillid_no_opt : forall T (k : kws (T:=T)) fr z,
   k_fill k = Some fr -> f_bounds fr = None -> k_lat k = Some z ->
@@ -343,6 +361,22 @@ Proof. exact @finished_run_is_clean. Qed.
 Print Assumptions C17_finished_run_is_clean.
 
 (* ---------------- non-vacuity ---------------- *)
+
+(* U=1 LAT=1 FILL=2 IMP:N=1 : the option list of the lattice theorem *)
+Example lattice_no_opt_shape : forall T (S : Scalar T),
+  let toks := [tk S "u" 0; tk S "1" 1; tk S "lat" 0; tk S "1" 1; tk S "fill" 0; tk S "2" 2;
+               tk S "imp:n" 0; tk S "1" 1]%Z in
+  toks = ([tk S "u" 0; tk S "1" 1] ++ tk S "lat" 0 :: tk S "1" 1 :: [] ++ tk S "fill" 0 :: tk S "2" 2
+          :: [tk S "imp:n" 0; tk S "1" 1])%list%Z /\
+  skippable [tk S "u" 0; tk S "1" 1]%Z 1 /\ skippable ([] : list (tok (T:=T))) 0 /\
+  skippable [tk S "imp:n" 0; tk S "1" 1]%Z 1 /\ stops [tk S "imp:n" 0; tk S "1" 1]%Z /\
+  py_int "1" = Some 1%Z /\ has_colon (tk S "2" 2%Z) = false /\ float_lit "2" = true.
+Proof.
+  intros. repeat split; try reflexivity.
+  - apply sk_u; try reflexivity. apply sk_nil.
+  - apply sk_nil.
+  - apply sk_imp; try reflexivity. apply sk_nil.
+Qed.
 
 (* options the keyword loop steps over: IMP:N=1 U=2 in front of a keyword *)
 Example skippable_example : forall T (S : Scalar T),
